@@ -674,6 +674,12 @@ def heap_walk(tables, dataless=()):
             property, core.PeriodicTable)
     IMMUT = (bool, int, float, complex, str, bytes, np.generic, type(None))
     FAST = frozenset((bool, int, float, complex, str, bytes, type(None)))
+    ATOMSET = frozenset(ATOMS)
+    MUT = (dict, list, set, bytearray, np.ndarray)
+    MUTSET = frozenset(MUT)
+    PLAIN = frozenset((dict, list, tuple, set, frozenset, core.IonSet))
+    nat = [0]
+    nobj = [0, 0]
     dataless = set(dataless)
     owner = {}
     for label, (tb, _) in tables.items():
@@ -695,21 +701,22 @@ def heap_walk(tables, dataless=()):
         names_iso = tuple(n for n in names_el if n in ISOTOPE_LEVEL)
 
         def walk(o, path, root_entry, depth):
-            if type(o) in FAST or isinstance(o, IMMUT):
+            t = type(o)
+            if t in FAST:
                 return
             oid = id(o)
-            if isinstance(o, ATOMS):
-                stats['atom_refs'] += 1
-                own = owner.get(oid)
-                if own != label:
+            if t in ATOMSET or isinstance(o, ATOMS):
+                nat[0] += 1
+                if owner.get(oid) != label:
                     if len(foreign) < 20:
                         foreign.append({'from_table': label, 'path': path, 'atom': atom_label(o),
-                                        'atom_owner': own or 'unknown table'})
+                                        'atom_owner': owner.get(oid) or 'unknown table'})
                     stats['foreign_atoms'] += 1
                 return
-            if isinstance(o, SKIP):
-                return
-            mutable = isinstance(o, (dict, list, set, bytearray, np.ndarray)) or hasattr(o, '__dict__')
+            if t not in PLAIN:
+                if isinstance(o, IMMUT) or isinstance(o, SKIP):
+                    return
+            mutable = t in MUTSET or isinstance(o, MUT) or hasattr(o, '__dict__')
             if mutable:
                 if depth == 0:
                     r = roots.setdefault(oid, {}).setdefault(label, [])
@@ -718,9 +725,9 @@ def heap_walk(tables, dataless=()):
             if oid in seen:
                 return
             seen.add(oid)
-            stats['objects_walked'] += 1
+            nobj[0] += 1
             if mutable:
-                stats['mutable_objects'] += 1
+                nobj[1] += 1
                 p = reach.setdefault(oid, {}).setdefault(label, [])
                 if len(p) < 3:
                     p.append(path)
@@ -753,9 +760,9 @@ def heap_walk(tables, dataless=()):
                 if type(v) in FAST:
                     continue
                 if k in ('element', 'ion', '_isotopes'):
-                    # structure of the table itself: the IonSet / isotope map hold atoms of this table
-                    if k == 'element':
-                        walk(v, '%s.%s' % (entry, k), entry, 1)
+                    # structure of the table itself (parent atom, IonSet, isotope map): walked for shared
+                    # containers and for atoms of another table, but not a root of served data
+                    walk(v, '%s.%s' % (entry, k), entry, 1)
                     continue
                 walk(v, '%s.%s' % (entry, k), entry, 0)
             if isinstance(a, core.Ion):
@@ -768,6 +775,9 @@ def heap_walk(tables, dataless=()):
                 if type(v) not in FAST:
                     walk(v, '%s.%s' % (entry, n), entry, 0)
 
+    stats['atom_refs'] = nat[0]
+    stats['objects_walked'] = nobj[0]
+    stats['mutable_objects'] = nobj[1]
     records = []
     for oid, by in reach.items():
         if len(by) < 2:
@@ -949,6 +959,16 @@ class Env(object):
             return
         self.inited[T].add(g)
         self.init_order.append((T, g))
+        if g == 'neutron':
+            # the record caches the number density of T's own element at init time
+            tb = self.tables[T]
+            self.counts['derived_value_checks'] += 1
+            got, want = safe(lambda: tb.Fe.neutron._number_density), safe(lambda: tb.Fe.number_density)
+            if got != want:
+                self.violation('private-derived', 'b', T, 'neutron',
+                               '%s.Fe.neutron._number_density = %s right after nsf.init(%s), %s.Fe.number_density = %s'
+                               % (T, short(got, 40), T, T, short(want, 40)),
+                               symptom='derived-differs', entries=[('Fe', '_number_density', got, want)], item='derived')
         if any(q in self.mutated[T] for q in set(INIT_PREREQ.get(g, ())) | set(DIGEST_PREREQ.get(g, ()))):
             self.mutated[T].add(g)      # derived from mutated prerequisites: not comparable
 
@@ -1026,6 +1046,8 @@ class Env(object):
                 self.harness.append('mutation %s could not be applied (harness): %s' % (':'.join(p), text[-400:]))
         self.mutated[T].add(g)
         self.mutated[T].update(DEPENDENTS.get(g, ()))
+        if g in ('mass', 'density'):
+            self.check_derived(T, 'after %s' % ':'.join(p))
         if own_pre is not None:
             if diff_digests(digest_group(self.tables[T], g), own_pre):
                 self.counts['effective_mutations'] += 1
@@ -1039,6 +1061,48 @@ class Env(object):
             if diffs:
                 self.report_diffs('private-cross', 'c', U, h, diffs,
                                   'mutating %s of %s changed, in table %s,' % (g, T, U), mutated_table=T)
+
+    def check_derived(self, T, where):
+        """Values that the library derives from mass and density must follow T's OWN mass and density
+        (documented equations of density.py / core.Ion.mass), also after T's data were changed: a private
+        table whose calculations read another table's data is not isolated from it."""
+        from periodictable.constants import avogadro_number, electron_mass
+        tb = self.tables[T]
+        if 'mass' not in self.inited[T] or 'density' not in self.inited[T]:
+            return
+        bad = []
+
+        def close(a, b):
+            if a is None or b is None:
+                return a is None and b is None
+            return abs(a - b) <= 1e-12 * max(abs(a), abs(b))
+        for sym in ('H', 'Fe', 'Cm', 'U', 'At'):
+            e = tb.symbol(sym)
+            self.counts['derived_value_checks'] += 1
+            try:
+                m, rho = e.mass, e.density
+                n, d = e.number_density, e.interatomic_distance
+                want_n = None if rho is None or m is None else rho / m * avogadro_number
+                want_d = None if rho is None or m is None else (m / (rho * avogadro_number * 1e-24)) ** (1. / 3.)
+                if not close(n, want_n):
+                    bad.append((sym, 'number_density', n, want_n))
+                if not close(d, want_d):
+                    bad.append((sym, 'interatomic_distance', d, want_d))
+                for iso in list(e)[:2]:
+                    want = None if rho is None else rho * iso.mass / m
+                    if not close(iso.density, want):
+                        bad.append(('%s[%d]' % (sym, iso.isotope), 'density', iso.density, want))
+                if e.ions:
+                    q = e.ions[0]
+                    if not close(e.ion[q].mass, m - q * electron_mass):
+                        bad.append(('%s{%d}' % (sym, q), 'mass', e.ion[q].mass, m - q * electron_mass))
+            except Exception as exc:
+                bad.append((sym, 'derived', ('EXC', type(exc).__name__), 'a value'))
+        if bad:
+            self.violation('private-derived', 'b', T, 'density',
+                           '%s: %d value(s) that %s derives from mass and density do not follow its own data, e.g. %s.%s = %s, own data give %s'
+                           % (where, len(bad), T, bad[0][0], bad[0][1], short(bad[0][2], 40), short(bad[0][3], 40)),
+                           symptom='derived-differs', entries=bad, item='derived')
 
     def _check_formula_atoms(self, T, what, label, f=None):
         """(e): every atom of the formula is an atom of the table it was parsed with."""
@@ -1169,6 +1233,8 @@ class Env(object):
             for g in GROUPS:
                 if self.comparable(T, g):
                     self.compare_digest(T, tb, g, 'private-fresh', 'b/c', 'end of history')
+        for T in sorted(self.tables):
+            self.check_derived(T, 'end of history')
         # (d): heap walk
         if heap:
             tabs = collections.OrderedDict()
